@@ -14,7 +14,7 @@ EVID = os.path.join(VERIF, 'evidence')
 REPLAY = os.path.join(VERIF, 'replay')
 
 
-def run_units(uids, kanis, tier):
+def run_units(uids, kanis, tier, filters=None):
     from . import kani_run
     results = {}
     with concurrent.futures.ThreadPoolExecutor(max_workers=6) as ex:
@@ -23,7 +23,7 @@ def run_units(uids, kanis, tier):
             futs[ex.submit(units.run_verus_unit, u, tier)] = u
         kres = None
         if kanis:
-            kf = ex.submit(kani_run.run_kani_units, kanis, tier)
+            kf = ex.submit(kani_run.run_kani_units, kanis, tier, filters)
         for f in concurrent.futures.as_completed(futs):
             results[futs[f]] = f.result()
         if kanis:
@@ -74,7 +74,7 @@ def check_property(prop, tier):
         print('property %s is not claimed (see MANIFEST.json not_applicable)' % prop)
         return 2
     seed = int(os.environ.get('VERIF_SEED', '0') or 0)
-    results = run_units(cfg['units'], cfg.get('kani', []), tier)
+    results = run_units(cfg['units'], cfg.get('kani', []), tier, cfg.get('kani_filter'))
     obligations = []
     violations = []
     known = []
@@ -114,6 +114,8 @@ def check_property(prop, tier):
     all_ok = (n > 0 and nd == n and not undecided and not violations)
     bounded = [o for o in obligations if o.get('strength') == 'bounded']
     level = cfg['level'] if all_ok else 'other'
+    if level == 'proof' and bounded:
+        level = 'other'   # a bounded stand-in is never counted as proved
     trusted = list(props.COMMON_TRUSTED)
     assumes = []
     for uid, r in results.items():
